@@ -159,6 +159,9 @@ def loop_summaries(ctx, fns, rule):
                 if new != flipped:
                     bad = "a matching item does not set the flag to %s (new value %s)" % (flipped[1], short(new, 40))
             else:
+                # while the flag still has its initial value the comparator must be consulted for this item
+                if old_known == init[1] and u["cmpev"] is None:
+                    bad = "an item is skipped without calling the comparator although no earlier item matched (the flag can never flip)"
                 # no match evaluated / no match: flag keeps its value
                 if new != lv and not (old_known is not None and new == const(old_known)):
                     if u["cmpev"] is not None:
@@ -394,5 +397,6 @@ def run(ctx):
     r1_table(ctx)
     from . import etaglist
     etaglist.tokeniser(ctx, "C04.R5")
+    etaglist.list_constructor(ctx, "C04.R5")
     M = SM.analyse(ctx)
     SM.c04_exit_order(ctx, M)
